@@ -222,7 +222,7 @@ var ruleInputImmutable = &core.Rule{ID: "R04.2", Min: 60,
 					case *ssa.Select, *ssa.Send:
 						s.Bad(core.FName(f)+": channel operation", c.Pos(in.Pos()), "channel operation in library code")
 					case *ssa.Range:
-						if _, isMap := x.X.Type().Underlying().(*types.Map); isMap {
+						if _, isMap := x.X.Type().Underlying().(*types.Map); isMap && !mapClearLoop(x) {
 							s.Bad(core.FName(f)+": map iteration", c.Pos(x.Pos()), "iteration over a map: the order is randomised, the result may differ between identical detections")
 						}
 					case ssa.CallInstruction:
